@@ -6,7 +6,6 @@ import ast
 from ..facts import calls_of, walk
 from ..model import norm_stmt
 from .common import facts, parent
-from .c08 import _predict_form
 
 EXPLANATION = (
     "Non-interference of the is_predict flag up to a final projection. (R9.1) each of the six context-free "
@@ -74,10 +73,20 @@ def check_projections(ctx):
                          % fn.qualname)
                 continue
             a, b = body[0], orelse[0]
-            ra = a.value if isinstance(a, (ast.Return, ast.Assign)) else None
-            rb = b.value if isinstance(b, (ast.Return, ast.Assign)) else None
-            same_target = type(a) is type(b) and (isinstance(a, ast.Return) or
-                                                  ast.unparse(a.targets[0]) == ast.unparse(b.targets[0]))
+
+            def payload(st):
+                """(what receives the value, the value) of a return / assignment / result-list append"""
+                if isinstance(st, ast.Return):
+                    return "return", st.value
+                if isinstance(st, ast.Assign) and len(st.targets) == 1:
+                    return ast.unparse(st.targets[0]), st.value
+                if isinstance(st, ast.Expr) and isinstance(st.value, ast.Call) and \
+                        isinstance(st.value.func, ast.Attribute) and st.value.func.attr == "append" and \
+                        len(st.value.args) == 1:
+                    return ast.unparse(st.value.func), st.value.args[0]
+                return None, None
+            (ta, ra), (tb, rb) = payload(a), payload(b)
+            same_target = ta is not None and ta == tb
             if ra is None or rb is None or not same_target:
                 ctx.note("R9.2: branch on is_predict in %s is not an assignment/return pair; decided by the trace "
                          "rules" % fn.qualname)
@@ -89,7 +98,28 @@ def check_projections(ctx):
             else:
                 # an unlisted form is not an alarm by itself: stream equality and result provenance decide
                 ctx.note("R9.2: unlisted projection pair in %s: %s" % (fn.qualname, why))
-    ctx.floor("R9.2", "branches on is_predict", n, 5)
+    # conditional expressions on the flag: `f = X.predict if is_predict else X.predict_expectations`, `a if is_predict
+    # else b` as an argument or a value
+    for fn in prog.all_functions():
+        if fn.module.name == "simulator" or "is_predict" not in fn.params:
+            continue
+        for node in ast.walk(fn.node):
+            if not (isinstance(node, ast.IfExp) and ast.unparse(node.test) == "is_predict"):
+                continue
+            n += 1
+            a, b = node.body, node.orelse
+            if isinstance(a, ast.Attribute) and isinstance(b, ast.Attribute) and a.attr == "predict" and \
+                    b.attr == "predict_expectations" and ast.unparse(a.value) == ast.unparse(b.value):
+                ctx.ok("R9.2", "%s: the flag selects X.predict / X.predict_expectations of one object" % fn.qualname,
+                       node, fn)
+                continue
+            ok, why = _pair_ok(a, b)
+            if ok:
+                ctx.ok("R9.2", "%s: predict is a projection of what predict_expectations returns (%s)" %
+                       (fn.qualname, why), node, fn, why)
+            else:
+                ctx.note("R9.2: unlisted projection pair in %s: %s" % (fn.qualname, why))
+    ctx.floor("R9.2", "branches on is_predict", n, 4)
     # columns of the linear expectation matrix are in arm-list order
     fv = prog.method("_Linear", "_vectorized_predict_context")
     from .pattern import find
@@ -122,8 +152,21 @@ def check_projections(ctx):
         return isinstance(d, ast.Call) and ast.unparse(d.func) in ("np.array", "np.asarray", "list", "tuple",
                                                                     "deepcopy") and len(d.args) >= 1 and \
             isinstance(d.args[0], ast.Name) and d.args[0].id == name
-    stk, sb = find("np.array([self.arm_to_model[_A_].predict(_EC_) for _A_ in _ECOLS_]).T", fv.node)
-    sel, lb = find("_ELAB_[np.argmax(_EM_, axis=1)]", fv.node)
+    # look at every expression with the locals replaced by what reaches them (a list comprehension or the argmax may
+    # have been given a name), in semantic form (X.argmax(axis=1) reads np.argmax(X, axis=1))
+    from .semantic import Env, sem_norm
+    env = Env(fv.node.body)
+    stk = sel = None
+    sb = lb = None
+    for st in ast.walk(fv.node):
+        if not isinstance(st, ast.stmt) or id(st) not in env.env_at or not hasattr(st, "value") or st.value is None:
+            continue
+        full = sem_norm(env.at(st, st.value))
+        if stk is None:
+            stk, sb = find("np.array([self.arm_to_model[_A_].predict(_EC_) for _A_ in _ECOLS_]).T", full)
+        if sel is None:
+            sel, lb = find("_ELAB_[np.argmax(_EM_, axis=1)]", full)
+    # the names in the matches are locals of the function: resolve them where they stand
     ok = stk is not None and sel is not None
     detail = "column-building comprehension or argmax label lookup not found"
     if ok:
@@ -154,12 +197,24 @@ def check_context_free(ctx):
     prog = ctx.prog
     n = 0
     for cname in ("_EpsilonGreedy", "_UCB1", "_Softmax", "_ThompsonSampling", "_Popularity", "_Random"):
-        fp = prog.method(cname, "predict")
+        fp = prog.cls(cname).resolve("predict")
+        if fp is None:
+            from ..model import AnalysisError
+            raise AnalysisError("anchored method %s.predict not found" % cname)
         ctx.saw_fn(fp)
-        n += 1
-        ctx.check(_predict_form(fp), "R9.1", "%s.predict = argmax o predict_expectations" % cname, fp.node, fp,
-                  "expected: expectations = self.predict_expectations(contexts); dict -> argmax, list -> [argmax]",
-                  construct="def %s.predict" % cname)
+        from .cardinality import M, returned
+        for sc in ("none", "one", "many"):
+            v, notes = returned(prog, cname, "predict", sc)
+            if sc == "many":
+                ok = v.kind == "list" and v.n == M and v.elem is not None and v.elem.kind == "scalar" and \
+                    v.elem.src == ("argmax", "PE[i]", "dict")
+            else:
+                ok = v.kind == "scalar" and v.src == ("argmax", "PE", "dict")
+            n += 1
+            ctx.check(ok, "R9.1", "%s.predict = argmax o predict_expectations (%s)" % (cname, sc), fp.node, fp,
+                      "abstract result %r; expected argmax of the dictionary predict_expectations(contexts) returns "
+                      "/ the list of the argmax of each of its dictionaries" % (v,),
+                      construct="def %s.predict [%s]" % (cname, sc))
         uses_rng = any(isinstance(x, ast.Attribute) and x.attr == "rng" for x in ast.walk(fp.node))
         ctx.check(not uses_rng, "R9.1", "%s.predict does not touch the generator itself" % cname, fp.node, fp,
                   construct="def %s.predict (rng)" % cname)
@@ -171,7 +226,7 @@ def check_context_free(ctx):
         "max(%s, key=lambda k: %s[k])" % (p, p))
     ctx.check(ok, "R9.1", "utils.argmax returns the first key with the maximal value", fa.node, fa,
               "body `%s`" % (ast.unparse(body[0]) if body else ""), construct="def argmax")
-    ctx.floor("R9.1", "context-free predict methods", n, 6)
+    ctx.floor("R9.1", "context-free predict obligations", n, 18)
 
 
 def _draws(root, eng, config=None):
@@ -257,8 +312,10 @@ def check_provenance(ctx, F):
                     ctx.check(okk, "R9.2", "the arm is chosen by max(d, key=d.get) over the expectations", ev.node,
                               site_fn, "max over an arm dictionary without key=<that dictionary>.get [%s]" % c.name)
                     found = found or okk
-                elif name == "numpy.argmax":
+                elif name in ("numpy.argmax", ".argmax"):
                     ax = ev.a["kwargs"].get("axis")
+                    if ax is None and name == ".argmax" and args:
+                        ax = args[0]
                     oka = "slice" not in a0.tags and ax is not None and ax.has_const and ax.const == 1
                     ctx.check(oka, "R9.2", "np.argmax is taken row-wise over the unmodified expectation matrix",
                               ev.node, ev.fn, "argument is a re-sliced/reordered view or axis is not 1 [%s]" % c.name)
